@@ -568,6 +568,22 @@ func (rn *runner) pairCase(workDir string, id int, s0seed uint64, s0size int, s1
 			}
 			if !judge(d, "cut-at-byte", fmt.Sprintf("k=%d of %d", k, total), cut) {
 				failed.Store(true)
+				return
+			}
+			// Leftovers of the crashed save must not break a later clean save of a SMALLER state.
+			if ki%5 == 0 || k > total-64 {
+				small := s1size / 4
+				cmd := exec.Command(rn.exe, "child", "c18save", filepath.Join(d, "state.json"), strconv.FormatUint(s1seed+7, 10), strconv.Itoa(small), "-1", filepath.Join(d, "s2.dump"))
+				err := cmd.Run()
+				got, lerr := loadDump(filepath.Join(d, "state.json"))
+				want, _ := os.ReadFile(filepath.Join(d, "s2.dump"))
+				if err != nil || lerr != nil || got != string(want) {
+					res.Violate("save-after-crash-broken", fmt.Sprintf("after a crash with %d of %d bytes written, a clean save of a smaller state (child err %v) does not load as that state (load err %v)", k, total, err, lerr),
+						map[string]any{"pair": pairDesc, "k": k, "case_id": pairDesc + "|later-smaller-save"})
+					failed.Store(true)
+					return
+				}
+				res.Count("clean_smaller_saves_after_crash", 1)
 			}
 		}(ki, k)
 	}
